@@ -300,6 +300,129 @@ theorem rc_not_persisted (host : Bool) (root : Str) (fs fs' : FS) (p : Provider)
     simp only [hwt, Except.ok.injEq, Prod.mk.injEq] at hs
     rw [← hs.1]; rfl
 
+/-! ### 2b. every location the writer produces passes the reader's validation -/
+
+/-- a location without a parent reference resolves below the root, whatever else its components look
+    like: ".hidden", "a.", "...", "renamed..out", "..data", spaces, '%', any Unicode, any length -/
+theorem contained_of_noParentRef (s : Str) (h : NoParentRef s) : containedLoc s = true :=
+  resolveBelow_isSome [] (splitPath s) h
+
+example : containedLoc ['e', 'c', 'h', 'o', '_', '.', 'e', 't', 'c', '.', '.', 'h', 'i', 'd', 'd', 'e', 'n'] = true := by decide
+example : containedLoc ['.', '.', '.', '/', 'a', '.', '.', '/', '.', '.', 'b'] = true := by decide
+example : containedLoc ['a', '/', '.', '.', '/', '.', '.', '/', 'b'] = false := by decide
+
+/-- the mangled command line is ONE component (no '/' is left) … -/
+theorem mangle_no_sep (isWord : Char → Bool) (cmd : Str) : sep ∉ mangle isWord cmd := by
+  intro h
+  unfold mangle stripP at h
+  have h1 := List.mem_of_mem_take h
+  have h2 := rstripP_subset _ _ _ h1
+  have h3 : sep ∈ (collapseOther isWord false (stripBinDir cmd)).map (fun c => if c = '/' then '.' else c) :=
+    (List.dropWhile_sublist _).subset h2
+  obtain ⟨c, _, hc⟩ := List.mem_map.mp h3
+  by_cases e : c = '/'
+  · simp [e, sep] at hc
+  · simp only [e, if_false] at hc; exact e hc
+
+/-- … and it is never "..": after `.strip(" ._-")` a non-empty name does not start with '.' (the
+    truncation to 255 characters keeps the first one) -/
+theorem mangle_ne_dotdot (isWord : Char → Bool) (cmd : Str) : mangle isWord cmd ≠ dotdot := by
+  intro h
+  unfold mangle stripP at h
+  cases hd : List.dropWhile mangleStrip
+      ((collapseOther isWord false (stripBinDir cmd)).map (fun c => if c = '/' then '.' else c)) with
+  | nil => simp [hd, rstripP, dotdot] at h
+  | cons d t =>
+    have hp : mangleStrip d = false := by
+      have := List.head_dropWhile_not mangleStrip
+        (l := (collapseOther isWord false (stripBinDir cmd)).map (fun c => if c = '/' then '.' else c)) (by simp [hd])
+      simpa [hd] using this
+    obtain ⟨r, hr⟩ := rstripP_head mangleStrip d t hp
+    rw [hd, hr] at h
+    simp only [dotdot, List.take_succ_cons, List.cons.injEq] at h
+    rw [h.1] at hp
+    simp [mangleStrip] at hp
+
+/-- so a command's location never contains a parent reference, whatever the command line is -/
+theorem mangle_noParentRef (isWord : Char → Bool) (cmd : Str) : NoParentRef (mangle isWord cmd) := by
+  unfold NoParentRef
+  rw [splitPath_no_sep _ (mangle_no_sep isWord cmd)]
+  simpa using (mangle_ne_dotdot isWord cmd).symm
+
+example : mangle (fun c => c.isAlphanum || c = '_') ['/', 'b', 'i', 'n', '/', 'e', 'c', 'h', 'o', ' ', '/', 'e', 't', 'c', '/', '.', 'h', 'i', 'd', 'd', 'e', 'n']
+    = ['e', 'c', 'h', 'o', '_', '.', 'e', 't', 'c', '.', '.', 'h', 'i', 'd', 'd', 'e', 'n'] := by decide
+
+theorem noParentRef_withPrefix (k : Kind) (x : Str) (h : NoParentRef x) : NoParentRef (withPrefix k x) := by
+  unfold withPrefix
+  cases hk : kindPrefix k with
+  | none => exact h
+  | some pre =>
+    unfold NoParentRef
+    rw [splitPath_append_sep]
+    have hpre : splitPath pre = [pre] ∧ pre ≠ dotdot := by
+      cases k <;> simp [kindPrefix] at hk <;> subst hk <;> decide
+    rw [hpre.1]
+    simp only [List.cons_append, List.nil_append, List.mem_cons, not_or]
+    exact ⟨fun e => hpre.2 e.symm, h⟩
+
+/-- the location written into the document has no parent reference when neither the provider's
+    relative path nor its save_as has one (dots inside or around names do not matter) -/
+theorem relOf_noParentRef (p : Provider) (hrp : startsWithC sep p.relativePath = false)
+    (hsa : NormalSaveAs p.saveAs) (h1 : NoParentRef p.relativePath)
+    (h2 : ∀ s, truthy p.saveAs = some s → NoParentRef s) : NoParentRef (relOf p) := by
+  rw [saveas_rules p hrp hsa]
+  cases h : truthy p.saveAs with
+  | none => exact noParentRef_withPrefix _ _ h1
+  | some sa =>
+    simp only
+    split
+    · rename_i he
+      apply noParentRef_withPrefix
+      obtain ⟨sa0, hsa0⟩ := exists_of_endsWithC sep sa he
+      have hsplit : splitPath sa = splitPath sa0 ++ [[]] := by
+        conv => lhs; rw [hsa0]
+        rw [show sa0 ++ [sep] = sa0 ++ sep :: [] from rfl, splitPath_append_sep]; rfl
+      have hno := h2 sa h
+      unfold NoParentRef at hno ⊢
+      rw [hsa0, show sa0 ++ [sep] ++ basename p.relativePath = sa0 ++ sep :: basename p.relativePath by simp,
+        splitPath_append_sep, splitPath_no_sep _ (basename_no_sep _)]
+      rw [hsplit] at hno
+      simp only [List.mem_append, List.mem_cons, List.not_mem_nil, or_false, not_or] at hno ⊢
+      refine ⟨hno.1, ?_⟩
+      intro e
+      exact h1 (e ▸ basename_mem_splitPath p.relativePath)
+    · exact noParentRef_withPrefix _ _ (h2 sa h)
+
+/-- `written_location_loads`: EVERY location the writer produces passes the reader's validation — for
+    every kind, every save_as form, every root: the document's location (after the reader's
+    `lstrip("/")`) resolves below the data directory, and the provider is constructed (the file it
+    names is the one just written).  Dot patterns that are not parent references — the mangled
+    `echo_.etc..hidden`, `renamed..out`, `report..v2`, `.hidden`, `a.`, `...` — are covered by the
+    single hypothesis "no component is exactly `..`". -/
+theorem written_location_loads (host : Bool) (root : Str) (fs fs' : FS) (p : Provider) (d : ResDoc)
+    (hw : WellFormed p) (hrp : startsWithC sep p.relativePath = false) (hsa : NormalSaveAs p.saveAs)
+    (h1 : NoParentRef p.relativePath) (h2 : ∀ s, truthy p.saveAs = some s → NoParentRef s)
+    (hs : serializeOne host root fs p = .ok (d, fs')) :
+    containedLoc (lstripC sep d.obj.relativePath) = true ∧
+    ∃ l, deserialize root fs' d = some l ∧ l.relativePath = relOf p := by
+  obtain ⟨l, hl, hd, hrel, _⟩ := roundtrip_meta (t := []) host root fs fs' p d hw hrp hsa hs
+  refine ⟨?_, l, hl, hrel⟩
+  rw [hd, lstripC_of_not_start sep _ (relOf_relative p hrp hsa)]
+  exact contained_of_noParentRef _ (relOf_noParentRef p hrp hsa h1 h2)
+
+/-- for a command spec without save_as nothing has to be assumed about the command line -/
+theorem command_location_loads (isWord : Char → Bool) (host : Bool) (root : Str) (fs fs' : FS) (p : Provider)
+    (d : ResDoc) (cmd : Str) (hk : p.kind = .command) (hrel : p.relativePath = mangle isWord cmd)
+    (hsa : truthy p.saveAs = none) (hs : serializeOne host root fs p = .ok (d, fs')) :
+    containedLoc (lstripC sep d.obj.relativePath) = true ∧ ∃ l, deserialize root fs' d = some l :=
+  have hrp : startsWithC sep p.relativePath = false := by
+    rw [hrel]; exact startsWithC_of_not_mem sep _ (mangle_no_sep isWord cmd)
+  have hns : NormalSaveAs p.saveAs := by intro s hs'; rw [hsa] at hs'; simp at hs'
+  have ⟨hc, l, hl, _⟩ := written_location_loads host root fs fs' p d
+    (by simp [WellFormed, hk]) hrp hns (by rw [hrel]; exact mangle_noParentRef isWord cmd)
+    (by intro s hs'; rw [hsa] at hs'; simp at hs') hs
+  ⟨hc, l, hl⟩
+
 /-! ### 3. one provider end to end -/
 
 /-- Text kinds (text file, command, datasource, both container kinds): a provider whose content is
